@@ -32,7 +32,7 @@ FUNCTIONS = [
 ASSUMPTIONS = [
     "input grammar (N-Triples): IRIREF characters are > U+0020 and not in <>\"{}|^`\\ ; STRING_LITERAL_QUOTE characters are "
     "not \" \\ LF CR (escapes appear only as the concrete skeleton pieces \\\" \\\\ \\n \\t \\uXXXX); blank-node label "
-    "characters in [A-Za-z0-9_] or U+00C0..U+00D6; language subtags in [A-Za-z]; comment characters are not LF/CR",
+    "characters in [A-Za-z0-9_] or U+00C0..U+00D6; first language subtag in [A-Za-z], later subtags in [A-Za-z0-9]; comment characters are not LF/CR",
     "document delivered through raw_graph= (RawStringLineReader); file/compressed line readers are outside (C08 n/a)",
     "one statement per line; comment-only lines are outside the quantifier of C06",
 ]
@@ -54,6 +54,10 @@ def c_comment(c):
 
 def c_lang(c):
     return z3.Or(z3.And(c >= 65, c <= 90), z3.And(c >= 97, c <= 122))
+
+
+def c_langnum(c):
+    return z3.Or(c_lang(c), z3.And(c >= 48, c <= 57))
 
 
 def c_label(c):
@@ -94,7 +98,7 @@ def _build_term(ex, tag, t):
         if sfx["kind"] == "none":
             return '"' + body + '"', dict(cls="Literal", val=XSD_STRING), parts
         if sfx["kind"] == "lang":
-            tagstr = SymStr(tuple(sfx.get("pre", "")) + tuple(_free(ex, tag + "_l", sfx.get("k", 0), c_lang)) + tuple(sfx.get("post", "")))
+            tagstr = SymStr(tuple(sfx.get("pre", "")) + tuple(_free(ex, tag + "_l", sfx.get("k", 0), c_langnum if sfx.get("alnum") else c_lang)) + tuple(sfx.get("post", "")))
             parts["lang"] = tagstr
             return '"' + body + '"@' + tagstr, dict(cls="Literal", val=LANG_STRING), parts
         if sfx["kind"] == "dt":
@@ -356,7 +360,7 @@ DT_FREE = {"kind": "dt", "base": "http://ex.org/t/", "k": 1}
 DT_DBP = {"kind": "dt", "base": "http://dbpedia.org/datatype/", "post": "usDollar"}
 LANG_EN = {"kind": "lang", "pre": "en"}
 LANG_FREE = {"kind": "lang", "k": 2}
-LANG_REGION = {"kind": "lang", "pre": "en-", "k": 1, "post": "B"}
+LANG_REGION = {"kind": "lang", "pre": "en-", "k": 1, "post": "B", "alnum": True}      # later subtags may hold digits (es-419, de-CH-1996)
 NONE = {"kind": "none"}
 S_IRI = {"kind": "iri", "base": "http://a.b/s"}
 S_IRI_FREE = {"kind": "iri", "base": "http://a.b/s", "k": 2}
